@@ -179,30 +179,31 @@ type frontAPI interface {
 }
 
 type fh struct {
-	cfg       FCfg
-	front     frontAPI
-	keys      [][]byte
-	names     []string
-	log       []FEv
-	seq       int
-	inflight  [4]int
-	nbuild    [4]int
-	nread     int
-	nwrite    int
-	viol      []string
-	monitor   int64 // scheduler resource for harness call-outs
-	stats     map[string]float64
-	nfault    int
-	burstEnd  int // number of log events when the scenario's threads had all finished (before any post phase)
-	ttlChain  bool
-	nilPre    bool              // the preloaded value is nil / the zero value (tag "nilpre")
-	nested    bool              // the builder of key 0 calls Get for key 1 on the same front-end (tag "nested")
-	walkFail  bool              // before the Gets start somebody walks the backend and gives up at the first entry (tag "walkfail")
-	slowBuild bool              // every build lets UpdateTTL+1s of virtual time pass before it returns (tag "slow")
-	ttlCalls  []ttlCall         // WithTTL calls the builder performs (C06)
-	ctxs      []context.Context // caller contexts of the Gets, in get-end order
-	quiet     bool              // record nothing (C16: threads must not share harness state)
-	ref       *fhRef
+	cfg          FCfg
+	front        frontAPI
+	keys         [][]byte
+	names        []string
+	log          []FEv
+	seq          int
+	inflight     [4]int
+	nbuild       [4]int
+	nread        int
+	nwrite       int
+	viol         []string
+	monitor      int64 // scheduler resource for harness call-outs
+	stats        map[string]float64
+	nfault       int
+	burstEnd     int // number of log events when the scenario's threads had all finished (before any post phase)
+	ttlChain     bool
+	nilPre       bool              // the preloaded value is nil / the zero value (tag "nilpre")
+	nestedDerive bool              // ... with a context it derived from its own (WithTimeout), cancelled afterwards (tag "nested-derive")
+	nested       bool              // the builder of key 0 calls Get for key 1 on the same front-end (tag "nested")
+	walkFail     bool              // before the Gets start somebody walks the backend and gives up at the first entry (tag "walkfail")
+	slowBuild    bool              // every build lets UpdateTTL+1s of virtual time pass before it returns (tag "slow")
+	ttlCalls     []ttlCall         // WithTTL calls the builder performs (C06)
+	ctxs         []context.Context // caller contexts of the Gets, in get-end order
+	quiet        bool              // record nothing (C16: threads must not share harness state)
+	ref          *fhRef
 }
 
 type ttlCall struct {
@@ -753,8 +754,9 @@ func newFH(cfg FCfg) *fh {
 			h.walkFail = true
 		}
 
-		if t == "nested" {
+		if t == "nested" || t == "nested-derive" {
 			h.nested = true
+			h.nestedDerive = t == "nested-derive"
 		}
 
 		if t == "nilpre" {
@@ -912,7 +914,17 @@ func (h *fh) builder(k int) func(ctx context.Context) (Tok, error) {
 		// A composite value: the builder of the first key needs the second key and asks the same front-end for it,
 		// with the context it was handed.
 		if h.nested && k == 0 && len(h.keys) > 1 {
-			_, _, _, _ = h.front.Get(ctx, h.keys[1], h.builder(1))
+			nctx := ctx
+
+			if h.nestedDerive {
+				// ... under a deadline of its own, released when the nested call has returned
+				var cancel context.CancelFunc
+
+				nctx, cancel = context.WithTimeout(ctx, time.Hour)
+				defer cancel()
+			}
+
+			_, _, _, _ = h.front.Get(nctx, h.keys[1], h.builder(1))
 		}
 
 		// A slow data source: the build takes longer than UpdateTTL (and than the failure window).
